@@ -232,6 +232,7 @@ func runC07(c *core.Ctx) error {
 	checkRefIdentityWhole(c, r6, irProg, pkgParser, pkgJS, pkgGen)
 	checkDeferredReleaseInLoop(c, r6, irProg, pkgGen, pkgParser, pkgJS)
 	checkRecursionWalkComplete(c, r6, irProg)
+	checkMemoKeyIsArgument(c, r6, irProg, pkgParser, pkgJS, pkgGen)
 	return nil
 }
 
